@@ -10,7 +10,7 @@ from pathlib import Path
 
 from .. import util
 from ..core import LEAN, REPO, Infra, Prop, Violation, import_repo, show_bool, write_if_changed
-from ..extract import e3_lysosome
+from ..extract import e3_lysosome, py2lean_lysosome
 
 TYPES = ["mis", "exp", "fop", "orp", "tox"]
 RETS = [0, 3515625, 900_000_000, 3_600_000_000, 86_400_000_000, -3_600_000_000]   # µs; exact as float hours
@@ -177,7 +177,7 @@ METHOD_OF = {"prune": "ingest", "ingest": "ingest", "ingestat": "ingest", "inges
 class C13(Prop):
     id = "C13"
     title = "Waste handling never hangs, stays bounded and accounts for every item"
-    extractors = ["E3-lysosome"]
+    extractors = ["E3-lysosome", "py2lean-lysosome"]
     fixed_prefix = 1
     quick_budget = 2200
     thorough_budget = 40000
@@ -198,8 +198,12 @@ class C13(Prop):
         "stated for the built-in toxic digester",
     ]
     trusted_modelled = [
-        "modelled, not verified: Lysosome.ingest/digest/autophagy/_emergency_digest/_auto_digest as "
-        "Operon.Lysosome.step; lock shapes by extractor E3 (harness/vf/extract/e3_lysosome.py)"]
+        "Lysosome.ingest/ingest_error/ingest_sensitive/digest/autophagy/clear_recycling_bin (with _emergency_digest, "
+        "_auto_digest and any helper they call) and the built-in toxic digester are translated from the source on every "
+        "run (harness/vf/extract/py2lean_lysosome.py -> Operon/Gen/LysosomeTranslated.lean) and proved equal to "
+        "Operon.Lysosome.step (c13_translation_agrees_*, c13_translated_history_agrees); trusted: the translator's "
+        "reading of the Python subset it accepts, the other built-in digesters (differential correspondence only); "
+        "lock shapes by extractor E3 (harness/vf/extract/e3_lysosome.py)"]
 
     # ------------------------------------------------------------------------------------------------------
     def setup(self, ctx):
@@ -230,8 +234,9 @@ class C13(Prop):
         text, facts = e3_lysosome.extract(REPO)
         changed = write_if_changed(LEAN / "Operon" / "Gen" / "LysosomeLocks.lean", text)
         self.facts = facts
-        return [{"id": "E3-lysosome", "facts_changed": changed, "lock_kind": facts["kind"],
-                 "recognised": facts["recognised"]}]
+        return ([{"id": "E3-lysosome", "facts_changed": changed, "lock_kind": facts["kind"],
+                  "recognised": facts["recognised"]}]
+                + py2lean_lysosome.run(REPO, LEAN, write_if_changed))
 
     # --- generation --------------------------------------------------------------------------------------
     def _cfg(self, rng):
